@@ -247,6 +247,18 @@ pub fn layouts(n: usize, thorough: bool) -> Vec<Layout> {
         let blocks: Vec<(usize, Gap, Option<u64>)> = (1..n).map(|b| (b, Gap::None, None)).collect();
         v.push(Layout { files: vec![(fno, None, vec![(0, Gap::Zeros, None)]), (fno.wrapping_sub(1).max(2).min(u64::MAX - 1), None, blocks)], index_form: 0, junk_keys: false, foreign_entries: false, label: format!("fileno={}", fno) });
     }
+    // (c') file-number twins: two files whose numbers agree modulo 2^8 / 2^16 / 2^31 / 2^32 / 2^33 / 2^63 (a file number kept in
+    // a narrower integer than the index stores makes them one file), the chain alternating between them so that both hold
+    // active blocks at the SAME offsets; and the same with the twin holding only the last block
+    for delta in [1u64 << 8, 1 << 16, 1 << 31, 1 << 32, 1 << 33, 1 << 63] {
+        for base in [0u64, 5] {
+            let even: Vec<(usize, Gap, Option<u64>)> = (0..n).filter(|b| b % 2 == 0).map(|b| (b, Gap::None, None)).collect();
+            let odd: Vec<(usize, Gap, Option<u64>)> = (0..n).filter(|b| b % 2 == 1).map(|b| (b, Gap::None, None)).collect();
+            v.push(Layout { files: vec![(base, None, even), (base + delta, None, odd)], index_form: (delta.trailing_zeros() % 2) as u8, junk_keys: false, foreign_entries: false, label: format!("fileno twins {} and {}+2^{} alternating", base, base, delta.trailing_zeros()) });
+            let head: Vec<(usize, Gap, Option<u64>)> = (0..n - 1).map(|b| (b, Gap::None, None)).collect();
+            v.push(Layout { files: vec![(base + delta, None, vec![(n - 1, Gap::None, None)]), (base, None, head)], index_form: 0, junk_keys: false, foreign_entries: false, label: format!("fileno twins {}+2^{} (tip only) and {}", base, delta.trailing_zeros(), base) });
+        }
+    }
     // (d) data-offset sweep (VarInt width boundaries; sparse multi-GiB offsets in thorough)
     let mut offs: Vec<u64> = vec![8, 127, 128, 16_511, 16_512, 2_113_663, 2_113_664];
     if thorough {
